@@ -4,6 +4,8 @@ package main
 
 import (
 	"go/token"
+	"go/types"
+	"strings"
 
 	"golang.org/x/tools/go/ssa"
 )
@@ -122,22 +124,37 @@ func runC07(r *Run, verifDir string) {
 			return
 		}
 		v := ret.Results[0]
-		nonNil := false
-		switch x := v.(type) {
-		case *ssa.Call:
-			id := callID(&x.Call)
-			nonNil = id.is(ttlvPath, "", "Errorf") || id.is("fmt", "", "Errorf") || id.is("errors", "", "New")
-		case *ssa.UnOp:
-			if g, ok := x.X.(*ssa.Global); ok && g.Pkg.Pkg.Path() == "io" {
-				nonNil = true
+		var nn func(v ssa.Value, at *ssa.BasicBlock, d int) bool
+		nn = func(v ssa.Value, at *ssa.BasicBlock, d int) bool {
+			if d > 5 {
+				return false
 			}
-		case *ssa.Extract:
-			for _, dc := range dominatingConds(ret.Block()) {
+			switch x := v.(type) {
+			case *ssa.Call:
+				id := callID(&x.Call)
+				return id.is(ttlvPath, "", "Errorf") || id.is("fmt", "", "Errorf") || id.is("errors", "", "New")
+			case *ssa.UnOp:
+				if g, ok := x.X.(*ssa.Global); ok && isErrorType(g.Type().(*types.Pointer).Elem()) && !strings.HasPrefix(g.Pkg.Pkg.Path(), modPath) {
+					return true // a sentinel error variable of the standard library
+				}
+			case *ssa.MakeInterface:
+				return true
+			case *ssa.Phi:
+				for i, e := range x.Edges {
+					if !nn(e, x.Block().Preds[i], d+1) {
+						return false
+					}
+				}
+				return true
+			}
+			for _, dc := range dominatingConds(at) {
 				if bo, ok := dc.cond.(*ssa.BinOp); ok && dc.outcome && bo.Op == token.NEQ && bo.X == v && isNilConst(bo.Y) {
-					nonNil = true
+					return true
 				}
 			}
+			return false
 		}
+		nonNil := nn(v, ret.Block(), 0)
 		if !nonNil {
 			badRet++
 			r.Bad("C07.S2", "ttlv.Stream.Recv/exits", ret.Pos(), "an exit of Recv other than the decode may return a nil error: a truncated stream would be reported as a message")
